@@ -158,7 +158,7 @@ example : WF h0 ∧ Depth h0.store 3 (.ref 0) ∧ Depth h0.store 3 (.ref 2) := b
     `settingFlow true` (table obligation over `Gen/Flows.lean`, regenerated from /repo's AST) -/
 theorem flows_as_modelled :
     Gen.usageRulesCopiesClient = true ∧ Gen.revocationSelfWrites = [] ∧ Gen.userinfoWritesConfig = false ∧
-    Gen.findTokenSchemaIsLocal = true := by decide
+    Gen.findTokenSchemaIsLocal = true ∧ Gen.usageRulesCopiesConfig = true := by decide
 
 /-- the usage-rules flow AS THE CODE HAS IT writes no static cell -/
 theorem usage_flow_static_unwritten (h : Heap) (gc cl : Val) (hw : WF h)
